@@ -25,6 +25,7 @@ from vf import core
 from vf.gen import npcatalog as nc
 from vf.gen import dyadic
 from vf.gen import c07_meta as meta
+from vf.gen import c07_templates  # noqa: F401  (adds C07's own forms to the catalogue of this process)
 from vf.ref import dims as rdims, uexpr, names as rnames
 
 RULE = ("one evaluation = one catalogue call (function / ndarray method / operator x call form x shape class x dtype x data draw "
@@ -238,6 +239,11 @@ def compare_leaf(x1, x2, kind, case_eps, unordered=False):
             if (a2.dtype.kind in "iu" and m1 * f1 / f2 > np.iinfo(a2.dtype).max) or (a1.dtype.kind in "iu" and m2 * f2 / f1 > np.iinfo(a1.dtype).max):
                 return ("discard", "integer-range")
         return (what, _detail(x1, x2, a1, a2, s1, s2, k1))
+    if kind != "dyadic" and k1 == "unit" and a1.size and (a1.dtype.kind in "iu" or a2.dtype.kind in "iu"):
+        # integer results: the covariant answer must be representable in the other run's integer type (NumPy wraps around)
+        m1, m2 = float(np.max(np.abs(a1.astype("f8")))), float(np.max(np.abs(a2.astype("f8"))))
+        if (a2.dtype.kind in "iu" and m1 * s1 / s2 > np.iinfo(a2.dtype).max) or (a1.dtype.kind in "iu" and m2 * s2 / s1 > np.iinfo(a1.dtype).max):
+            return ("discard", "integer-range")
     ct = "c16" if (a1.dtype.kind == "c" or a2.dtype.kind == "c") else "f8"
     with np.errstate(all="ignore"):
         v1 = a1.astype(ct) * s1
@@ -351,6 +357,30 @@ def family_factors(kind, base, var):
 
 
 # ------------------------------------------------------------------------------------------------ worker
+def form_names(t, call):
+    """structural signature of a call form: the optional parameters it passes"""
+    if t.form == "base":
+        return frozenset()
+    if t.form == "pos":
+        return frozenset({"positional"})
+    if t.kind == "function":
+        names = set(meta.bound(t, call, defaults=False))
+        try:
+            import inspect
+            sig = inspect.signature(t.target)
+            names = {n for n in names if n in sig.parameters and sig.parameters[n].default is not inspect.Parameter.empty or n not in sig.parameters}
+        except (TypeError, ValueError):
+            pass
+        names.discard("varargs")
+    else:
+        names = set(call.kwargs)
+        if t.form == "pos" or "positional" in t.form:
+            names.add("positional")
+    if not names:
+        names = {t.form.split("#")[0].replace("kw:", "")}
+    return frozenset(names)
+
+
 def dt_class(dt):
     return {"f": "float", "c": "complex", "i": "int", "u": "int", "b": "bool"}[np.dtype(dt).kind]
 
@@ -443,7 +473,7 @@ def judge_case(t, call, layout, shape, dt, fam, kind, w1, w2, base, slots, rec, 
         if "unsupported" in tags:          # the mechanism is that the declared-unsupported function ran at all, not the leaf
             where = where.split("[")[0]
         fails.setdefault((fkind, where), []).append({
-            "base": t.form == "base", "out": "out" in tags, "dt": dt_class(dt), "ukind": kind,
+            "base": t.form == "base", "names": form_names(t, call), "dt": dt_class(dt), "ukind": kind,
             "desc": f"{t.tid} [{shape},{dt},{fam}] {where}: {detail}",
             "case": {"template": t.tid, "shape": shape, "dtype": dt, "family": fam, "args": call.args, "kwargs": call.kwargs,
                      "where": where, "detail": detail}})
@@ -647,23 +677,33 @@ def _numpy_itself_inexact(t, call, layout, w1, w2):
 
 def emit(fname, fails, rec):
     """turn the failures of one function into mechanism keys.  The key names function, failure kind and place (result leaf /
-    out= buffer / operand); it is generic when the plain call form shows the failure, otherwise it says whether only out=
-    forms or (also) other optional-argument forms do; a data-type class / 'ordinary-units' suffix is added when float data /
-    the dyadic pool do not show it"""
+    out= buffer / operand); it is generic when the plain call form shows the failure; otherwise it names the minimal sets of
+    optional parameters whose forms fail (one key per set), or "(options)" when more than two independent parameters do;
+    a data-type class / 'ordinary-units' suffix is added when float data / the dyadic pool do not show it"""
     for (fkind, where), entries in sorted(fails.items()):
         if any(e["base"] for e in entries):
-            fq = ""
-        elif all(e["out"] for e in entries):
-            fq = "(out)"
+            groups = {"": entries}
         else:
-            fq = "(options)"
-        dcs = {e["dt"] for e in entries}
-        dq = "" if "float" in dcs else (":" + sorted(dcs)[0] if len(dcs) == 1 else ":non-float")
-        uq = "" if any(e["ukind"] == "dyadic" for e in entries) else ":ordinary-units"
-        key = f"C07:{fname}{fq}:{fkind}:{where}{dq}{uq}"
-        entries = sorted(entries, key=lambda e: (not e["base"], e["dt"] != "float", ",f8," not in e["desc"], e["desc"]))
-        for e in entries:
-            rec.violation(key, e["desc"], e["case"])
+            sets = {e["names"] for e in entries}
+            if any("positional" not in s for s in sets):         # all-positional forms repeat the keyword forms
+                sets = {s for s in sets if "positional" not in s}
+            minimal = sorted((s for s in sets if not any(o < s for o in sets)), key=sorted)
+            if len(minimal) > 2:
+                groups = {"(options)": entries}
+            else:
+                groups = {}
+                for e in entries:
+                    for m in minimal:
+                        if m <= e["names"]:
+                            groups.setdefault("(" + ",".join(sorted(m)) + ")", []).append(e)
+                            break
+        for fq, es in sorted(groups.items()):
+            dcs = {e["dt"] for e in es}
+            dq = "" if "float" in dcs else (":" + sorted(dcs)[0] if len(dcs) == 1 else ":non-float")
+            uq = "" if any(e["ukind"] == "dyadic" for e in es) else ":ordinary-units"
+            key = f"C07:{fname}{fq}:{fkind}:{where}{dq}{uq}"
+            for e in sorted(es, key=lambda e: (not e["base"], e["dt"] != "float", ",f8," not in e["desc"], e["desc"])):
+                rec.violation(key, e["desc"], e["case"])
 
 
 # ------------------------------------------------------------------------------------------------ evidence
